@@ -899,7 +899,11 @@ def run(ctx: Context):
             raise AnchorVanished("get_block_and_salt._then: block offsets for versions %s" % sorted(map(str, seenv)))
         # read length: block (+ salt for MDMF)
         cfg = then.cfg()
-        rv = [n for n in cfg.nodes if "readvs" in node_stores(n)]
+        rvname = "readvs"
+        for n in cfg.nodes:          # the read vector is what _then returns (whatever the local is called)
+            if is_return(n) and isinstance(n.ast.value, ast.Name):
+                rvname = n.ast.value.id
+        rv = [n for n in cfg.nodes if rvname in node_stores(n)]
         salted = [n for n in cfg.nodes if n.kind == "stmt" and isinstance(n.ast, ast.AugAssign)
                   and isinstance(n.ast.op, ast.Add) and tn.norm(n, n.ast.value) == "SALT_SIZE"]
         if not rv:
@@ -917,7 +921,7 @@ def run(ctx: Context):
                                          kill=lambda m: lenvar in node_stores(m) and m not in salted):
             r.violation(then, then.loc(n.ast), "an MDMF block can be read without room for its salt (path: %s)" % w.brief(), w)
         for n in rv:
-            v = assign_value(n, "readvs")
+            v = assign_value(n, rvname)
             pr = _pair(v.elts[0]) if isinstance(v, ast.List) and len(v.elts) == 1 else None
             r.require(pr is not None and attr_path(pr[0]) == "share_offset" and (lenvar is None or attr_path(pr[1]) == lenvar), then,
                       then.loc(n.ast), "read vector is %s" % src(then, v))
@@ -945,7 +949,7 @@ def run(ctx: Context):
                       got["salt"][1], got["salt"][2], got["data"][1], got["data"][2]))
         rets = [n for n in pr_.cfg().nodes if is_return(n)]
         for n in rets:
-            v = n.ast.value
+            v = _def_of(prn, n, n.ast.value)[1]
             r.require(isinstance(v, ast.Tuple) and [attr_path(e) for e in v.elts] == ["data", "salt"], pr_, pr_.loc(n.ast),
                       "get_block_and_salt returns %s, its callers unpack (block, salt)" % src(pr_, v))
 
@@ -955,6 +959,8 @@ def run(ctx: Context):
                   "decrypted, then written to the consumer", expected=10) as r:
         def tail_select(q, var, ns_attr, tail_val, other_val, what):
             fn = idx.func(q)
+            if callable(var):
+                var = var(fn)
             fnorm = FlowNorm(fn, depth=8)
             cfg = fn.cfg()
             seg = "segnum"
@@ -986,14 +992,50 @@ def run(ctx: Context):
                                     "(segnum + 1 == %s); path: %s" % (what, val, txt, ns_attr, w.brief()), w)
             return fn, fnorm
 
-        tail_select(PUB + "._encode_segment", "segsize", "self.num_segments", "self.tail_segment_size",
-                    "self.segment_size", "plaintext read size")
-        tail_select(PUB + "._encode_segment", "fec", "self.num_segments", "self.tail_fec", "self.fec", "segment encoder")
-        tail_select(RP + ".get_block_and_salt._then", "data", "self._num_segments", "self._tail_block_size",
+        # the selected locals are found by what they are used for, not by their names
+        def arg_of(tail, recv_pred, default):
+            def find(fn):
+                for c in calls_in_func(fn, tail):
+                    if c.args and isinstance(c.args[0], ast.Name) and isinstance(c.func, ast.Attribute) \
+                            and recv_pred(attr_path(c.func.value)):
+                        return c.args[0].id
+                return default
+            return find
+
+        def receiver_of(tail, default):
+            def find(fn):
+                for c in calls_in_func(fn, tail):
+                    if isinstance(c.func, ast.Attribute) and isinstance(c.func.value, ast.Name):
+                        return c.func.value.id
+                return default
+            return find
+
+        def read_length_var(fn):
+            for n in fn.cfg().nodes:
+                if is_return(n):
+                    v = _def_of(FlowNorm(fn), n, n.ast.value)[1]
+                    pr = _pair(v.elts[0]) if isinstance(v, ast.List) and len(v.elts) == 1 else None
+                    if pr and isinstance(pr[1], ast.Name):
+                        return pr[1].id
+            return "data"
+
+        def trim_bound_var(fn):
+            p0 = first_positional_params(fn)[0]
+            for n in fn.cfg().nodes:
+                v = assign_value(n, p0)
+                if isinstance(v, ast.Subscript) and isinstance(v.slice, ast.Slice) and isinstance(v.slice.upper, ast.Name):
+                    return v.slice.upper.id
+            return "size_to_use"
+        tail_select(PUB + "._encode_segment", arg_of("read", lambda p: p == "self.data", "segsize"), "self.num_segments",
+                    "self.tail_segment_size", "self.segment_size", "plaintext read size")
+        tail_select(PUB + "._encode_segment", receiver_of("encode", "fec"), "self.num_segments", "self.tail_fec", "self.fec",
+                    "segment encoder")
+        tail_select(RP + ".get_block_and_salt._then", read_length_var, "self._num_segments", "self._tail_block_size",
                     "self._block_size", "block read length")
         prq = RET + "._decode_blocks._process"
-        pfn, pnorm = tail_select(prq, "size_to_use", "self._num_segments", "self._tail_data_size", "self._segment_size",
+        pfn, pnorm = tail_select(prq, trim_bound_var, "self._num_segments", "self._tail_data_size", "self._segment_size",
                                  "trim size")
+        trim_var = trim_bound_var(pfn)
         # encoders are configured with the sizes they are selected for
         sp = idx.func(PUB + ".setup_encoding_parameters")
         spn = FlowNorm(sp, depth=8)
@@ -1023,14 +1065,14 @@ def run(ctx: Context):
         def trims(n):
             v = assign_value(n, seg_p)
             return isinstance(v, ast.Subscript) and attr_path(v.value) == seg_p and isinstance(v.slice, ast.Slice) \
-                and v.slice.lower is None and v.slice.step is None and attr_path(v.slice.upper) == "size_to_use"
+                and v.slice.lower is None and v.slice.step is None and attr_path(v.slice.upper) == trim_var
         tr = [n for n in pcfg.nodes if trims(n)]
         for n in tr:
             r.site(pfn, n.ast, "trim")
         if not tr:
             r.violation(pfn, pfn.loc(), "the decoded segment is no longer trimmed to the selected size")
         for (n, w) in find_path_avoiding(pcfg, is_return, gate_node=trims,
-                                         kill=lambda m: (seg_p in node_stores(m) and not trims(m)) or "size_to_use" in node_stores(m)):
+                                         kill=lambda m: (seg_p in node_stores(m) and not trims(m)) or trim_var in node_stores(m)):
             r.violation(pfn, pfn.loc(n.ast), "decoded segment returned without trimming the zfec padding "
                         "(path: %s)" % w.brief(), w)
         for n in pcfg.nodes:
@@ -1645,10 +1687,30 @@ def run(ctx: Context):
     with ctx.rule("C09.14", "R5", "the old start segment, old end segment and old block hash tree fetched by the "
                   "servermap update reach TransformingUploadable(start, end) and Publish.update(blockhashes) in their "
                   "own roles: update_range -> get_block_and_salt order -> update_data tuple -> decode(segment number) "
-                  "-> gatherResults order -> constructor arguments", expected=11) as r:
+                  "-> gatherResults order -> constructor arguments", expected=12) as r:
         _need("the evaluated update ranges of C09.9", upd_obs)
-        # (a) ServermapUpdater.__init__: which attribute holds update_range[0] / [1]
+        # (0) MutableFileVersion._update_servermap hands its update_range on to the ServermapUpdater
+        usm = idx.func(MFV + "._update_servermap")
+        usn = FlowNorm(usm)
         smi = idx.func(SMU + ".__init__")
+        sm_ps = first_positional_params(smi)
+        ctor_calls = [(n, c) for n in usm.cfg().nodes for c in node_calls(n) if call_tail(c) == "ServermapUpdater"]
+        if not ctor_calls or "update_range" not in usm.params:
+            raise AnchorVanished("_update_servermap(update_range) no longer builds a ServermapUpdater")
+        r.site(usm, ctor_calls[0][1], "update_range handed to the servermap updater")
+        for (n, c) in ctor_calls:
+            given = kwarg(c, "update_range")
+            if given is None and "update_range" in sm_ps and sm_ps.index("update_range") < len(c.args):
+                given = c.args[sm_ps.index("update_range")]
+            if given is not None and attr_path(usn.resolve(n, given)) == "update_range":
+                continue
+            for (t, w) in find_path_avoiding(usm.cfg(), lambda x, _n=n: x is _n,
+                                             gate_edge=lambda a, lab: usn.edge_fact(a, lab) in (
+                                                 ("false", "update_range", None), ("is", "None", "update_range"),
+                                                 ("is", "update_range", "None"))):
+                r.violation(usm, usm.loc(c), "_update_servermap can build its ServermapUpdater without the update_range "
+                            "it was given (path: %s); the old boundary segments are then not fetched" % w.brief(), w)
+        # (a) ServermapUpdater.__init__: which attribute holds update_range[0] / [1]
         if "update_range" not in smi.params:
             raise AnchorVanished("ServermapUpdater.__init__ no longer takes update_range")
         smn = FlowNorm(smi)
